@@ -1622,10 +1622,10 @@ fn gen_frame(seed: u64, endian: RunTimeEndian, eh: bool) -> Result<Vec<u8>, Stri
         let mut cie = write::CommonInformationEntry::new(enc, caf, daf, Register(*r.pick(&[16u16, 30])));
         if eh {
             if r.chance(1, 3) {
-                cie.personality = Some((*r.pick(&[c::DW_EH_PE_absptr, c::DW_EH_PE_udata4, gimli::DwEhPe(0x1b)]), Address::Constant(0x4000 + r.below(0x100))));
+                cie.personality = Some((*r.pick(&[c::DW_EH_PE_absptr, c::DW_EH_PE_udata4, gimli::DwEhPe(0x1b), gimli::DwEhPe(0x9b), gimli::DwEhPe(0x80)]), Address::Constant(0x4000 + r.below(0x100))));
             }
             if r.chance(1, 3) {
-                cie.lsda_encoding = Some(*r.pick(&[c::DW_EH_PE_absptr, c::DW_EH_PE_udata4, gimli::DwEhPe(0x1b)]));
+                cie.lsda_encoding = Some(*r.pick(&[c::DW_EH_PE_absptr, c::DW_EH_PE_udata4, gimli::DwEhPe(0x1b), gimli::DwEhPe(0x9b), gimli::DwEhPe(0x83), gimli::DwEhPe(0x80)]));
             }
             cie.fde_address_encoding = *r.pick(&[c::DW_EH_PE_absptr, c::DW_EH_PE_udata4, gimli::DwEhPe(0x1b), c::DW_EH_PE_sdata4]);
             cie.signal_trampoline = r.chance(1, 5);
